@@ -4,7 +4,7 @@
                 [out f j p]     the outcome of call number j (0-based);
                 [Den f p s]     every call j of next() on p has the outcome [at_ s j]: the object DENOTES s — for
                                 s = Fin l these are the values of l followed by StopIteration for ever, for s = Inf g
-                                the values g 0, g 1, ... (so the statement is about every finite prefix);
+                                the values g 0, g 1, ... (so the statement is about every finite gprefix);
                 [ADen f a s]    the same for an operand read with Pattern.value() (a scalar is the constant stream).
    Each class theorem takes ARBITRARY operand objects that denote some s and concludes that the class object, in
    the state __init__ leaves it in, denotes the closed form of Ref.v applied to s: induction on the number of calls
@@ -43,6 +43,37 @@ Proof.
   induction len as [|len IH]; intros s n H; [lia|]. destruct n as [|n]; cbn [seq nth_error].
   - f_equal. lia.
   - rewrite IH by lia. f_equal. lia.
+Qed.
+
+Lemma nth_error_repeat' {A} (x : A) : forall n i, (i < n)%nat -> nth_error (repeat x n) i = Some x.
+Proof. induction n as [|n IH]; intros i H; [lia|]. destruct i; cbn; [reflexivity | apply IH; lia]. Qed.
+
+Lemma nth_error_zipw {A B C} (f : A -> B -> C) : forall l1 l2 j,
+  nth_error (zipw f l1 l2) j =
+    match nth_error l1 j, nth_error l2 j with Some a, Some b => Some (f a b) | _, _ => None end.
+Proof.
+  induction l1 as [|a l1 IH]; intros l2 j.
+  - cbn. destruct j; reflexivity.
+  - destruct l2 as [|b l2].
+    + cbn. destruct j; cbn; [reflexivity|]. destruct (nth_error l1 j); reflexivity.
+    + destruct j; cbn; [reflexivity | apply IH].
+Qed.
+
+Lemma nth_error_prefix g n j : nth_error (gprefix g n) j = if (j <? n)%nat then Some (g j) else None.
+Proof.
+  unfold gprefix. rewrite nth_error_map. destruct (j <? n)%nat eqn:E.
+  - apply Nat.ltb_lt in E. rewrite nth_error_seq' by exact E. reflexivity.
+  - apply Nat.ltb_ge in E. assert (H : nth_error (seq 0 n) j = None) by (apply nth_error_None; rewrite seq_length; exact E).
+    rewrite H. reflexivity.
+Qed.
+
+Lemma nth_error_adj_from h : forall l prev j,
+  nth_error (adj_from h prev l) j =
+    match nth_error (prev :: l) j, nth_error l j with Some c, Some n => Some (h c n) | _, _ => None end.
+Proof.
+  induction l as [|v l IH]; intros prev j.
+  - cbn. destruct j; cbn; [reflexivity|]. destruct j; reflexivity.
+  - destruct j; [reflexivity|]. cbn [adj_from nth_error]. rewrite IH. reflexivity.
 Qed.
 
 (** * Denotations *)
@@ -334,12 +365,6 @@ Section Den.
   (* ---------------------------------------------------------------------------------------------- *)
   (** * PStutter(p, count), count >= 1 a scalar: each value count times *)
 
-  Definition sem_stutter (k : nat) (s : sem) : sem :=
-    match s with
-    | Fin l => Fin (ref_stutter k l)
-    | Inf g => Inf (fun i => g (i / k)%nat)
-    end.
-
   Lemma nth_error_stutter k : (0 < k)%nat -> forall l q r, (r < k)%nat ->
     nth_error (ref_stutter k l) (q * k + r) = nth_error l q.
   Proof.
@@ -415,5 +440,235 @@ Section Den.
           rewrite D. rewrite (Nat.mul_comm k). rewrite (at_stutter k s (j / k) (j mod k) Hk U).
           apply (at_stop_mono s q); [|exact Hq]. apply Nat.div_le_lower_bound; lia.
         * right. right. exists q, (S m), cc, pos, v. repeat split; try lia; assumption.
+  Qed.
+
+  (* ---------------------------------------------------------------------------------------------- *)
+  (** * element-wise classes *)
+
+  Lemma at_map h s j : at_ (sem_map h s) j = match at_ s j with Yield v => Yield (h v) | o => o end.
+  Proof. destruct s as [l|g]; cbn; [rewrite nth_error_map; destruct (nth_error l j); reflexivity | reflexivity]. Qed.
+
+  Lemma at_zip h s1 s2 j :
+    at_ (sem_zip h s1 s2) j = match at_ s1 j, at_ s2 j with Yield a, Yield b => Yield (h a b) | _, _ => Stop end.
+  Proof.
+    destruct s1 as [l1|g1], s2 as [l2|g2]; cbn [sem_zip at_]; try reflexivity.
+    - rewrite nth_error_zipw. destruct (nth_error l1 j), (nth_error l2 j); reflexivity.
+    - rewrite nth_error_zipw, nth_error_prefix. destruct (nth_error l1 j) eqn:E; [|reflexivity].
+      assert (j < List.length l1)%nat by (apply nth_error_Some; congruence).
+      destruct (j <? List.length l1)%nat eqn:E2; [reflexivity | apply Nat.ltb_ge in E2; lia].
+    - rewrite nth_error_zipw, nth_error_prefix. destruct (nth_error l2 j) eqn:E.
+      + assert (j < List.length l2)%nat by (apply nth_error_Some; congruence).
+        destruct (j <? List.length l2)%nat eqn:E2; [reflexivity | apply Nat.ltb_ge in E2; lia].
+      + destruct (j <? List.length l2)%nat; reflexivity.
+  Qed.
+
+  (** PAbs: |v|, rests kept; the input holds numbers and rests *)
+  Definition absable (v : val) : Prop :=
+    match v with VNone | VBool _ | VInt _ | VFlt _ => True | _ => False end.
+
+  Theorem abs_den f a s : ADen f a s -> (forall j v, at_ s j = Yield v -> absable v) ->
+    Den (S f) (PAbs a) (sem_map abs1 s).
+  Proof.
+    intros Ha Hv. apply Den_sim with (R := fun j p => p = PAbs (aafter f j a)); [reflexivity|].
+    intros j p ->. rewrite (step_abs_eq binop LMAX), (ADen_step f a s j Ha), at_map.
+    destruct (at_cases s j) as [[v E] | E]; rewrite E; cbn [fst snd]; (split; [|reflexivity]); [|reflexivity].
+    specialize (Hv j v E). destruct v; cbn in Hv; try contradiction; reflexivity.
+  Qed.
+
+  (** classes of the shape "a = value(self.a); b = value(self.b); return comb(a, b)": PSkipIf, the operator classes *)
+  Section Binary.
+    Variable mk : arg -> arg -> pat.
+    Variable comb : val -> val -> outcome val.
+    Hypothesis mk_step : forall f a b,
+      step (S f) (mk a b) =
+        (let '(oa, a') := value f a in
+         match oa with
+         | Yield va =>
+             let '(ob, b') := value f b in
+             match ob with
+             | Yield vb => (comb va vb, mk a' b')
+             | _ => (ob, mk a' b')
+             end
+         | _ => (oa, mk a' b)
+         end).
+
+    Theorem binary_den f a b sa sb h : ADen f a sa -> ADen f b sb ->
+      (forall j va vb, at_ sa j = Yield va -> at_ sb j = Yield vb -> comb va vb = Yield (h va vb)) ->
+      Den (S f) (mk a b) (sem_zip h sa sb).
+    Proof.
+      intros Ha Hb Hc.
+      apply Den_sim with (R := fun j p => exists jb, p = mk (aafter f j a) (aafter f jb b) /\
+                                          (jb = j \/ ((jb <= j)%nat /\ at_ sa jb = Stop))).
+      - exists O. split; [reflexivity | left; reflexivity].
+      - intros j p (jb & -> & Hjb). rewrite mk_step, (ADen_step f a sa j Ha), at_zip.
+        destruct Hjb as [-> | [Hle Hs]].
+        + destruct (at_cases sa j) as [[va E] | E]; rewrite E.
+          * rewrite (ADen_step f b sb j Hb). destruct (at_cases sb j) as [[vb E2] | E2]; rewrite E2; cbn [fst snd].
+            -- split; [apply (Hc j); assumption|]. exists (S j). split; [reflexivity | left; reflexivity].
+            -- split; [reflexivity|]. exists (S j). split; [reflexivity | left; reflexivity].
+          * cbn [fst snd]. split; [reflexivity|]. exists j. split; [reflexivity | right; split; [lia | exact E]].
+        + rewrite (at_stop_mono sa jb j Hle Hs). cbn [fst snd]. split; [reflexivity|].
+          exists jb. split; [reflexivity | right; split; [lia | exact Hs]].
+    Qed.
+  End Binary.
+
+  (** PSkipIf(p, skip): a rest where skip is true *)
+  Theorem skipif_den f a b sa sb : ADen f a sa -> ADen f b sb ->
+    Den (S f) (PSkipIf a b) (sem_zip skip1 sa sb).
+  Proof.
+    intros Ha Hb. apply (binary_den PSkipIf (fun v s => Yield (skip1 v s))); try assumption.
+    - intros. reflexivity.
+    - intros. reflexivity.
+  Qed.
+
+  (** the operator classes: the element-wise operation (a rest if either side is a rest) wherever it is defined *)
+  Definition elem_op (o : op) (va vb : val) : outcome val :=
+    if is_none va || is_none vb then Yield VNone else binop o va vb.
+  Theorem binop_den f o a b sa sb h : ADen f a sa -> ADen f b sb ->
+    (forall j va vb, at_ sa j = Yield va -> at_ sb j = Yield vb -> elem_op o va vb = Yield (h va vb)) ->
+    Den (S f) (PBinOp o a b) (sem_zip h sa sb).
+  Proof.
+    intros Ha Hb Hc. apply (binary_den (PBinOp o) (elem_op o)); try assumption.
+    intros. reflexivity.
+  Qed.
+
+  (* ---------------------------------------------------------------------------------------------- *)
+  (** * functions of neighbouring values: PChanged, PDiff *)
+
+  Lemma at_adj h s j :
+    at_ (sem_adj h s) j = match at_ s j, at_ s (S j) with Yield c, Yield n => Yield (h c n) | _, _ => Stop end.
+  Proof.
+    destruct s as [l|g]; [|reflexivity]. destruct l as [|x r]; cbn [sem_adj at_].
+    - destruct j; reflexivity.
+    - rewrite nth_error_adj_from. cbn [nth_error]. destruct (nth_error (x :: r) j), (nth_error r j); reflexivity.
+  Qed.
+
+  Section Adjacent.
+    Variable mk : arg -> val -> pat.
+    Variable comb : val -> val -> outcome val.       (* current, next *)
+    Hypothesis mk_step : forall f a cur,
+      step (S f) (mk a cur) =
+        (let '(o, a') := value f a in
+         match o with
+         | Yield nxt => match comb cur nxt with Yield d => (Yield d, mk a' nxt) | oe => (oe, mk a' cur) end
+         | _ => (o, mk a' cur)
+         end).
+
+    (* the object as __init__ leaves it: the first value of the input already consumed *)
+    Theorem adjacent_den f a s h v0 : ADen f a s -> at_ s 0 = Yield v0 ->
+      (forall j c n, at_ s j = Yield c -> at_ s (S j) = Yield n -> comb c n = Yield (h c n)) ->
+      Den (S f) (mk (aafter f 1 a) v0) (sem_adj h s).
+    Proof.
+      intros Ha H0 Hc.
+      apply Den_sim with (R := fun j p => exists cur, p = mk (aafter f (S j) a) cur /\ (at_ s j = Yield cur \/ at_ s j = Stop)).
+      - exists v0. split; [reflexivity | left; exact H0].
+      - intros j p (cur & -> & Hcur). rewrite mk_step, (ADen_step f a s (S j) Ha), at_adj.
+        destruct Hcur as [Hcur | Hcur].
+        + rewrite Hcur. destruct (at_cases s (S j)) as [[n E] | E]; rewrite E.
+          * rewrite (Hc j cur n Hcur E). cbn [fst snd]. split; [reflexivity|]. exists n. split; [reflexivity | left; first [exact E | reflexivity]].
+          * cbn [fst snd]. split; [reflexivity|]. exists cur. split; [reflexivity | right; first [exact E | reflexivity]].
+        + rewrite Hcur, (at_stop_mono s j (S j) ltac:(lia) Hcur). cbn [fst snd]. split; [reflexivity|].
+          exists cur. split; [reflexivity | right; reflexivity].
+    Qed.
+  End Adjacent.
+
+  Theorem changed_den f a s v0 : ADen f a s -> at_ s 0 = Yield v0 ->
+    Den (S f) (PChanged (aafter f 1 a) v0) (sem_adj changed1 s).
+  Proof.
+    intros Ha H0. apply (adjacent_den PChanged (fun c n => Yield (changed1 c n))); try assumption.
+    - intros. reflexivity.
+    - intros. reflexivity.
+  Qed.
+
+  (** PDiff on streams of ints and rests *)
+  Definition intish (v : val) : Prop := match v with VNone | VInt _ => True | _ => False end.
+  Definition diff_comb (c n : val) : outcome val :=
+    if is_none c || is_none n then Yield VNone else Val.binop OSub n c.
+
+  Lemma step_diff_eq f a cur :
+    step (S f) (PDiff a cur) =
+      (let '(o, a') := value f a in
+       match o with
+       | Yield nxt => match diff_comb cur nxt with Yield d => (Yield d, PDiff a' nxt) | oe => (oe, PDiff a' cur) end
+       | _ => (o, PDiff a' cur)
+       end).
+  Proof.
+    change (step (S f) (PDiff a cur)) with
+      (let '(o, source') := value f a in
+       match o with
+       | Yield nxt =>
+           if is_none cur || is_none nxt then (Yield VNone, PDiff source' nxt)
+           else match Val.binop OSub nxt cur with
+                | Yield d => (Yield d, PDiff source' nxt)
+                | oe => (oe, PDiff source' cur)
+                end
+       | _ => (o, PDiff source' cur)
+       end).
+    destruct (value f a) as [[nxt| | | |] a']; try reflexivity.
+    unfold diff_comb. destruct (is_none cur || is_none nxt); reflexivity.
+  Qed.
+
+  Theorem diff_den f a s v0 : ADen f a s -> at_ s 0 = Yield v0 ->
+    (forall j v, at_ s j = Yield v -> intish v) ->
+    Den (S f) (PDiff (aafter f 1 a) v0) (sem_adj diff1 s).
+  Proof.
+    intros Ha H0 Hi. apply (adjacent_den PDiff diff_comb); try assumption.
+    - intros. apply step_diff_eq.
+    - intros j c n Ec En. pose proof (Hi j c Ec) as Ic. pose proof (Hi (S j) n En) as In_.
+      destruct c; cbn in Ic; try contradiction; destruct n; cbn in In_; try contradiction; try reflexivity.
+      unfold diff_comb. cbn [is_none orb]. rewrite binop_sub_int. reflexivity.
+  Qed.
+
+  (* ---------------------------------------------------------------------------------------------- *)
+  (** * PPad(p, length): rests appended until the length is reached *)
+
+  Lemma at_pad n s j :
+    at_ (sem_pad n s) j = match at_ s j with Yield v => Yield v | _ => if (j <? n)%nat then Yield VNone else Stop end.
+  Proof.
+    destruct s as [l|g]; [|reflexivity]. cbn [sem_pad at_]. unfold ref_pad.
+    destruct (nth_error l j) eqn:E.
+    - rewrite nth_error_app1 by (apply nth_error_Some; congruence). rewrite E. reflexivity.
+    - apply nth_error_None in E. rewrite nth_error_app2 by exact E.
+      destruct (j <? n)%nat eqn:E2.
+      + apply Nat.ltb_lt in E2. rewrite nth_error_repeat' by lia. reflexivity.
+      + apply Nat.ltb_ge in E2. assert (H : nth_error (repeat VNone (n - List.length l)) (j - List.length l) = None)
+          by (apply nth_error_None; rewrite repeat_length; lia). rewrite H. reflexivity.
+  Qed.
+
+  Lemma step_pad_eq f pattern length count :
+    step (S f) (PPad pattern length count) =
+      (let '(o, pattern') := anext f pattern in
+       match o with
+       | Stop =>
+           match cmp OGe (VInt count) length with
+           | Yield true => (Stop, PPad pattern' length count)
+           | Yield false => (Yield VNone, PPad pattern' length (count + 1))
+           | oc => (ocast oc, PPad pattern' length count)
+           end
+       | Yield v => (Yield v, PPad pattern' length (count + 1))
+       | _ => (o, PPad pattern' length count)
+       end).
+  Proof. reflexivity. Qed.
+
+  Theorem pad_den f c s n : Den f c s ->
+    Den (S (S f)) (PPad (AP c) (VInt (Z.of_nat n)) 0) (sem_pad n s).
+  Proof.
+    intro Hc.
+    apply Den_sim with (R := fun j p => exists count : nat, p = PPad (AP (after f j c)) (VInt (Z.of_nat n)) (Z.of_nat count) /\
+                                        (count = j \/ ((count <= j)%nat /\ (n <= count)%nat /\ at_ s count = Stop))).
+    - exists O. split; [reflexivity | left; reflexivity].
+    - intros j p (count & -> & Hcount). rewrite step_pad_eq, (Den_anext f c s j Hc), at_pad.
+      destruct Hcount as [-> | (Hle & Hn & Hs)].
+      + destruct (at_cases s j) as [[v E] | E]; rewrite E.
+        * cbn [fst snd]. split; [reflexivity|]. exists (S j). split; [do 2 f_equal; lia | left; reflexivity].
+        * rewrite cmp_ge_int. destruct (j <? n)%nat eqn:E2.
+          -- apply Nat.ltb_lt in E2. destruct (Z.of_nat n <=? Z.of_nat j) eqn:E3; [lia|]. cbn [fst snd].
+             split; [reflexivity|]. exists (S j). split; [do 2 f_equal; lia | left; reflexivity].
+          -- apply Nat.ltb_ge in E2. destruct (Z.of_nat n <=? Z.of_nat j) eqn:E3; [|lia]. cbn [fst snd].
+             split; [reflexivity|]. exists j. split; [reflexivity | right; repeat split; try lia; exact E].
+      + rewrite (at_stop_mono s count j Hle Hs), cmp_ge_int.
+        destruct (Z.of_nat n <=? Z.of_nat count) eqn:E3; [|lia].
+        destruct (j <? n)%nat eqn:E2; [apply Nat.ltb_lt in E2; lia|]. cbn [fst snd].
+        split; [reflexivity|]. exists count. split; [reflexivity | right; repeat split; try lia; exact Hs].
   Qed.
 End Den.
